@@ -30,6 +30,12 @@ CLAIMED = {
  'C10': ('exploration', 'link-time TRNG tape interposer + differential runtime monitor on unmasked values and raw share words',
          'Masked AEAD, masked permutations x2/x3/x4, the whole masked-word toolkit and masked keys run under seven chosen random tapes on the x86-64, 64-bit C and 32-bit C masked backends and 4 (quick) / 27 (thorough) share triples each; unmasked values compared with the reference, raw share words compared before/after randomize.',
          'Functional correctness only (not side-channel order); partial sizes 1..7 only.', '4 C10'),
+ 'C14': ('exploration', 'history monitor with a harness-side 128-bit counter: packet i vs one-shot under N+i, public nonce field, C++ objects',
+         'Multi-packet sessions over 3 C session types and 12 C++ classes, starting nonces with every carry-chain length incl. the 2^128 wrap, mixing encrypt / good / bad decrypt; set_nonce lengths 0..40 and set_counter.',
+         'Sessions are sampled; attribution rule for C++ mismatches stated in evidence assumptions.', '4 C14'),
+ 'C17': ('exploration', 'compile probes (one TU per documented member, compiler as oracle) + differential runtime monitor C++ vs C API per keying path',
+         '404 compile probes (808 with clang++ in thorough) over every documented member/overload; sessions over all keying paths and overloads of 12 cipher classes compared with the C functions; hash/xof templates vs the reference.',
+         'g++ 12 / clang++ 14 only.', '4 C17'),
  'C08': ('exploration', 'differential runtime monitor vs reference model + ASan/UBSan + guard pages',
          'Real library built for each of the 5 host backends (release and ASan+UBSan), every (offset,size) pair exhaustively, '
          'structured + random states for all 12 starting rounds, each output compared with an independent reference permutation.',
